@@ -155,6 +155,26 @@ func CouldMatchAny(pass *analysis.Pass, qs ...pattern.Pattern) bool {
 	return false
 }
 
+// CallEllipsis returns the position of the "..." of the call inside node
+// whose arguments are args, or token.NoPos if that call does not spread its
+// last argument. Patterns bind the arguments of a call but not whether the
+// call is variadic; a fix that passes the arguments on to another call has to
+// carry the ellipsis over.
+func CallEllipsis(node ast.Node, args []ast.Expr) token.Pos {
+	if len(args) == 0 {
+		return token.NoPos
+	}
+	pos := token.NoPos
+	ast.Inspect(node, func(n ast.Node) bool {
+		if call, ok := n.(*ast.CallExpr); ok && len(call.Args) > 0 && call.Args[len(call.Args)-1] == args[len(args)-1] {
+			pos = call.Ellipsis
+			return false
+		}
+		return true
+	})
+	return pos
+}
+
 func MatchAndEdit(pass *analysis.Pass, before, after pattern.Pattern, node ast.Node) (*pattern.Matcher, []analysis.TextEdit, bool) {
 	m, ok := Match(pass, before, node)
 	if !ok {
